@@ -559,3 +559,52 @@ func (t *Terms) envValue(cl *Closure, e ast.Expr) (Value, bool) {
 	}
 	return nil, false
 }
+
+// ReadSym resolves a captured variable or configuration selector of a closure symbolically.
+func (t *Terms) ReadSym(cl *Closure, e ast.Expr) (sym.Expr, bool) { return t.readValue(cl, e) }
+
+// ClosureApplication returns the closure a stage applies once per element in its steady-state
+// send (`out <- f(a, b)`) and the stream each argument is an element of (nil: not a plain element).
+func (t *Terms) ClosureApplication(st *Stage) (*Closure, []*Stream) {
+	for _, si := range st.Sends {
+		if !si.InLoop || !si.Steady {
+			continue
+		}
+		call, ok := ast.Unparen(si.Expr).(*ast.CallExpr)
+		if !ok {
+			continue
+		}
+		id, ok := call.Fun.(*ast.Ident)
+		if !ok {
+			continue
+		}
+		obj := si.Frame.Info.Uses[id]
+		if obj == nil {
+			continue
+		}
+		cell := si.Frame.Env.Lookup(obj)
+		if cell == nil {
+			continue
+		}
+		cl, ok := cell.V.(*Closure)
+		if !ok {
+			continue
+		}
+		var ins []*Stream
+		for _, a := range call.Args {
+			var s *Stream
+			if aid, ok := ast.Unparen(a).(*ast.Ident); ok {
+				if ao := si.Frame.Info.Uses[aid]; ao != nil {
+					if c := si.Frame.Env.Lookup(ao); c != nil {
+						if ev, ok := c.V.(ElemV); ok && ev.Def == nil && !ev.Carried && len(ev.Deps) == 1 {
+							s = ev.Deps[0]
+						}
+					}
+				}
+			}
+			ins = append(ins, s)
+		}
+		return cl, ins
+	}
+	return nil, nil
+}
